@@ -485,7 +485,14 @@ func (ex *executor) applyContract(st *state, c *Contract, key string, names []st
 	}
 	if rc := r.contract; rc != nil && ex == r && len(rc.AtCall[short]) > 0 {
 		for i, ac := range rc.AtCall[short] {
-			t := r.evalBoolClause(ac, st, r.entry, nil)
+			av := map[string]Value{}
+			for k, v := range r.params {
+				av[k] = v
+			}
+			for ai, a := range args {
+				av[fmt.Sprintf("callarg%d", ai)] = a
+			}
+			t := r.evalBoolClause(ac, st, r.entry, av)
 			ex.addObligation(st, "atcall", fmt.Sprintf("at call %s: %s", short, clauseLabel(ac, i)), Implies(st.pc, t), pos)
 		}
 	}
